@@ -10,6 +10,7 @@ package main
 // programs, hostile requests, plus ill-typed random programs.
 
 import (
+	"encoding/json"
 	"fmt"
 	"regexp"
 	"strings"
@@ -199,6 +200,17 @@ func c04Cases(r *mon.Run) []c04Case {
 	} {
 		add("extreme", e.d, e.body)
 	}
+	// results JSON cannot carry (NaN, +-Inf; from arithmetic, from parseFloat, from a float query parameter): the
+	// evaluation succeeds, the response cannot be produced — that is a failed request, never a 2xx
+	for _, q := range []string{"NaN", "Inf", "-Inf", "%2BInf", "1e308", "-1e308", "nan", "infinity"} {
+		for _, e := range []struct{ d, body string }{
+			{"echo", "  ? factor: float = 1.0\n  > {x: factor}\n"}, {"scaled", "  ? factor: float = 1.0\n  > {x: factor * 10.0}\n"},
+			{"in-array", "  ? factor: float = 1.0\n  > [1, factor * 10.0]\n"}, {"bare", "  ? factor: float = 1.0\n  > factor * 100.0\n"},
+			{"with-status", "  ? factor: float = 1.0\n  > {x: factor * 10.0} :: 201\n"},
+		} {
+			cs = append(cs, c04Case{Family: "unencodable-result", Detail: e.d + ":" + q, Src: c04Route(e.body), Req: HReq{M: "GET", P: "/t?factor=" + q}})
+		}
+	}
 	// non-terminating programs: must end in an error within the watchdog
 	nt := func(d, src string) {
 		cs = append(cs, c04Case{Family: "non-terminating", Detail: d, Src: src + "\n@ GET /__alive {\n  > {alive: true}\n}\n", Req: HReq{M: "GET", P: "/t"}, WatchS: 25, NonTerm: true})
@@ -349,6 +361,15 @@ func checkC04(tier string) {
 					}
 				}
 			}
+			if rs.S >= 200 && rs.S < 300 && c04Generic(rs.B) && !strings.Contains(c.Src, "Internal server error") {
+				r.Violate("2xx-carrying-the-generic-error-body:"+mn+":"+c.Family, fmt.Sprintf("%s %s (%s mode): the server reports an internal error in the body of a %d", c.Family, c.Detail, mn, rs.S), wit)
+			}
+			if c.Family == "unencodable-result" && rs.S >= 200 && rs.S < 300 && rs.CT != "" && strings.Contains(rs.CT, "json") {
+				var any interface{}
+				if json.Unmarshal([]byte(rs.B), &any) != nil {
+					r.Violate("2xx-with-undecodable-json:"+mn, fmt.Sprintf("%s %s: %d with body %s", c.Family, c.Detail, rs.S, clipN(rs.B, 80)), wit)
+				}
+			}
 			if c.NonTerm && rs.S >= 200 && rs.S < 300 {
 				r.Violate("non-terminating-program-answers-2xx:"+mn+":"+c.Detail, fmt.Sprintf("%s answered %d %s", c.Detail, rs.S, clipN(rs.B, 80)), wit)
 			}
@@ -423,8 +444,8 @@ func c04Library(c c04Case, interp bool) string {
 	if strings.Contains(firstRoute(mod).Path, ":") {
 		return "?" // path parameters are bound by the HTTP handler, not by this driver
 	}
-	if strings.Contains(c.Src, "query") || strings.Contains(c.Src, "headers") {
-		return "?" // ... and so are the request objects
+	if strings.Contains(c.Src, "query") || strings.Contains(c.Src, "headers") || firstRoute(mod).QueryParams != nil {
+		return "?" // ... and so are the request objects and declared query parameters
 	}
 	bc, err := compiler.NewCompilerWithOptLevel(compiler.OptBasic).CompileRoute(firstRoute(mod))
 	if err != nil {
